@@ -168,7 +168,7 @@ proof! {
 }
 
 proof! {
-	[hash_mix, rand] fn accepted_proofs_consume_their_path() {
+	[hash_mix_count, rand] fn accepted_proofs_consume_their_path() {
 		// Structural half of "shortening or lengthening the path makes verification fail", which
 		// needs no assumption about the hash: whenever verification of a proof with m path hashes
 		// succeeds, exactly m + 1 hashes were computed (the leaf and one per path element) — a
